@@ -21,6 +21,7 @@ func init() {
 			"R3 the path walker recurses only with path[1:], only on elements whose code equals path[0], only into the children of a *GroupedAVP, appends an element only when len(path) == 1, and the generic walker recurses with the same code and mode; " +
 			"R4 the public entry points pass the walkers m.AVP and the Code of the dictionary AVP found for the caller's argument, and return the lookup error without walking. " +
 			"R2 also: one pass builds one result list (no second scan that could reorder results). R4 also: the walkers are reached on every non-error path of the entry points, and the code they are given derives only from the dictionary lookup of the caller's argument. " +
+			"R2/R3 also: a helper that hands out an AVP's members may decline only on the grouped-type test; any other condition (a cached length, a flag) hides the members of some grouped AVPs. " +
 			"Not decided: equality with a reference walk over all trees as executed behaviour.",
 		Rules: map[string]string{
 			"R1": "appends are guarded by the code match (or are recursive results)",
